@@ -209,12 +209,14 @@ def run(ctx, chk):
     COUNT, ESZ = ("arg", 0), ("arg", 1)
     nmul = 0
     for p in cm.paths(prog, aa):
-        for e in p.calls("sodium_malloc"):
+        for e in p.calls("sodium_malloc", "_sodium_malloc"):
             nmul += 1
             fb = p.facts_before(e.idx)
             a = e.args[0]
+            if a[0] == "c":
+                continue                   # a constant request (the empty array): nothing is multiplied
             ismul = a[0] == "bin" and a[1] == "mul" and {a[2], a[3]} == {COUNT, ESZ}
-            safe = fb.zeroness(COUNT) == "Z" or \
+            safe = fb.zeroness(COUNT) == "Z" or fb.zeroness(ESZ) == "Z" or \
                 fb.truth(("icmp", "ult", ESZ, ("bin", "udiv", C(M64, 64), COUNT, 64))) is True
             chk.ob("R17.4", aa, "count * size is formed only when count == 0 or size < SIZE_MAX / count", ismul and safe,
                    loc=aa.loc(e.iid), detail="argument %s" % T.show(a, aa), path=None if (ismul and safe) else p,
@@ -222,16 +224,28 @@ def run(ctx, chk):
     chk.floor("R17.4", "sodium_malloc calls in sodium_allocarray", nmul, 1)
 
     # ---- sodium_malloc fill -----------------------------------------------------------------------
-    smal = prog.need("sodium_malloc", rule="R17.2")
-    for p in cm.paths(prog, smal):
-        if p.kind != "ret" or p.ret_zeroness() == "Z":
+    # every function of the unit that hands out the result of _sodium_malloc(n) (sodium_malloc, and sodium_allocarray should it stop
+    # delegating) fills exactly those n bytes
+    prog.need("sodium_malloc", rule="R17.2")
+    nfill = 0
+    for smal in sorted((f for f in prog.functions() if not f.decl and f.unit == sm.unit), key=lambda f: f.name):
+        if not any(i["op"] == "call" and i.get("callee") and i["callee"][0] == "g" and i["callee"][1] == "_sodium_malloc" for i in smal.insts):
             continue
-        inner = [e for e in p.calls("_sodium_malloc")]
-        fills = [e for e in p.calls("memset") if inner and e.args[0] == inner[0].res and e.args[1][0] == "c"
-                 and (e.args[1][1] & 0xFF) != 0 and e.args[2] == ("arg", 0)]
-        ok = bool(fills) and p.ret == inner[0].res
-        chk.ob("R17.2", smal, "returned region is filled with a non-zero constant over exactly `size` bytes", ok,
-               loc=smal.loc(p.end_iid), path=None if ok else p, key="R17.2 sodium_malloc fill")
+        for p in cm.paths(prog, smal):
+            if p.kind != "ret" or p.ret is None or p.ret_zeroness() == "Z":
+                continue
+            inner = [e for e in p.calls("_sodium_malloc") if e.res == p.ret]
+            if not inner:
+                continue
+            nfill += 1
+            fills = [e for e in p.calls("memset") if e.args[0] == inner[0].res and e.args[1][0] == "c"
+                     and (e.args[1][1] & 0xFF) != 0 and e.args[2] == inner[0].args[0]]
+            ok = bool(fills)
+            chk.ob("R17.2", smal, "returned region is filled with a non-zero constant over exactly the requested number of bytes", ok,
+                   loc=smal.loc(p.end_iid), detail="" if ok else "no memset(result, non-zero constant, n) with n == %s, the size handed to "
+                   "_sodium_malloc: part of the user region keeps the zeros of the fresh mapping" % T.show(inner[0].args[0], smal),
+                   path=None if ok else p, key="R17.2 %s fill" % smal.sname)
+    chk.floor("R17.2", "paths returning a fresh guarded region", nfill, 1)
 
     # ---- sodium_free --------------------------------------------------------------------------------
     fr = prog.need("sodium_free", rule="R17.3")
